@@ -21,8 +21,8 @@ import (
 	_ "verif/simtest/c05" // proposer with concurrent unblinding
 	_ "verif/simtest/c08" // multinode submitters
 	_ "verif/simtest/c11" // registration rounds against config refreshes
-	_ "verif/simtest/c12" // config refresh against lookups, auctions, registrations
-	_ "verif/simtest/c13" // account manager refresh against lookups
+	"verif/simtest/c12" // config refresh against lookups, auctions, registrations
+	"verif/simtest/c13" // account manager refresh against lookups
 	_ "verif/simtest/c18" // cache set / get / clean
 	. "verif/simtest/env"
 	"verif/simtest/syssim"
@@ -256,6 +256,8 @@ func init() {
 		inner := src.Exec
 		sim.Register(&sim.Scenario{Property: "C17", Name: ref[0] + "-" + ref[1], Gen: src.Gen, Weight: 3, Race: true, Exec: func(plan any, sched *simrt.Tape) *sim.Outcome {
 			before := fileSize(raceLog())
+			c12.AtomicityClauses = true
+			c13.AtomicityClauses = true
 			o := inner(plan, sched)
 			if o == nil {
 				return o
@@ -264,6 +266,9 @@ func init() {
 				// two overlapping duty jobs both signed for one validator and epoch: the outcome of
 				// no sequential order of the two jobs (the check-and-mark of the attester is not atomic)
 				o.Violation.Kind = "C17/non-sequential/double-attestation-by-overlapping-duty-jobs"
+				return o
+			}
+			if o.Violation != nil && strings.HasPrefix(o.Violation.Kind, "C17/non-sequential/") {
 				return o
 			}
 			if o.Violation != nil && !strings.HasPrefix(o.Violation.Kind, "harness-") {
